@@ -49,6 +49,60 @@ type syncAnalyzer struct {
 	mutexes map[string]bool          // mutex fields
 	sites   []syncSite
 	depth   int
+	methods map[string]*ast.FuncDecl // methods of the target type (and its embedded types) by name
+	reentry []string                 // sites where a mutex is acquired while the same goroutine already holds it
+}
+
+// acquires lists the mutexes a function's body locks (Lock or RLock), directly or through calls to
+// functions / methods of the same package (function literals excluded: they may run elsewhere)
+func (a *syncAnalyzer) acquires(fd *ast.FuncDecl, depth int) map[string]bool {
+	out := map[string]bool{}
+	if fd == nil || fd.Body == nil || depth > 3 {
+		return out
+	}
+	recv := map[string]bool{}
+	if fd.Recv != nil && len(fd.Recv.List) == 1 && len(fd.Recv.List[0].Names) == 1 {
+		recv[fd.Recv.List[0].Names[0].Name] = true
+	}
+	ast.Inspect(fd.Body, func(n ast.Node) bool {
+		switch x := n.(type) {
+		case *ast.FuncLit:
+			return false
+		case *ast.CallExpr:
+			if m, op, ok := a.lockOp(x, recv); ok && (op == "Lock" || op == "RLock") {
+				out[m] = true
+			}
+			if callee := a.calleeOf(x, recv); callee != nil && callee != fd {
+				for m := range a.acquires(callee, depth+1) {
+					out[m] = true
+				}
+			}
+		}
+		return true
+	})
+	return out
+}
+
+// calleeOf resolves f(..) to a package-level function and r.m(..) (r the receiver) to a method of the target type
+func (a *syncAnalyzer) calleeOf(call *ast.CallExpr, recv map[string]bool) *ast.FuncDecl {
+	switch f := call.Fun.(type) {
+	case *ast.Ident:
+		if a.tgt.typ == "" {
+			return a.funcs[f.Name]
+		}
+	case *ast.SelectorExpr:
+		if id, ok := f.X.(*ast.Ident); ok && recv[id.Name] {
+			return a.methods[f.Sel.Name]
+		}
+	}
+	return nil
+}
+
+func (a *syncAnalyzer) noteReentry(pos token.Pos, fn, m, how string, st lockState) {
+	if prev, held := st.held[m]; held {
+		p := fset.Position(pos)
+		a.reentry = append(a.reentry, fmt.Sprintf("%s:%d %s: %s %s while this goroutine holds it (%s)", filepath.Base(p.Filename), p.Line, fn, how, m, prev))
+	}
 }
 
 func parseDir(rel string) map[string]*ast.File {
@@ -96,13 +150,22 @@ func isSyncPrim(t string) bool {
 }
 
 func newSyncAnalyzer(t syncTarget) *syncAnalyzer {
-	a := &syncAnalyzer{tgt: t, files: parseDir(t.dir), funcs: map[string]*ast.FuncDecl{}, fields: map[string]bool{}, mutexes: map[string]bool{}}
+	a := &syncAnalyzer{tgt: t, files: parseDir(t.dir), funcs: map[string]*ast.FuncDecl{}, fields: map[string]bool{}, mutexes: map[string]bool{}, methods: map[string]*ast.FuncDecl{}}
 	for _, f := range a.files {
 		for _, d := range f.Decls {
 			switch x := d.(type) {
 			case *ast.FuncDecl:
 				if x.Recv == nil {
 					a.funcs[x.Name.Name] = x
+				} else if len(x.Recv.List) == 1 && t.typ != "" {
+					rt := strings.TrimPrefix(typeString(x.Recv.List[0].Type), "*")
+					ok := rt == t.typ
+					for _, e := range t.embeds {
+						ok = ok || rt == e
+					}
+					if ok {
+						a.methods[x.Name.Name] = x
+					}
 				}
 			case *ast.GenDecl:
 				if x.Tok == token.TYPE && t.typ != "" {
@@ -245,6 +308,11 @@ func (a *syncAnalyzer) scanExpr(e ast.Node, recv map[string]bool, st lockState, 
 					}
 				}
 			}
+			if callee := a.calleeOf(x, recv); callee != nil && len(st.held) > 0 {
+				for m := range a.acquires(callee, 0) {
+					a.noteReentry(x.Pos(), fn, m, "call of "+callee.Name.Name+", which locks", st)
+				}
+			}
 			if id, ok := x.Fun.(*ast.Ident); ok && a.depth < 3 {
 				if fd, ok := a.funcs[id.Name]; ok && !ast.IsExported(id.Name) && fd.Body != nil && a.tgt.typ == "" {
 					a.depth++
@@ -322,8 +390,10 @@ func (a *syncAnalyzer) walkStmt(s ast.Stmt, recv map[string]bool, st lockState, 
 			if m, op, ok := a.lockOp(call, recv); ok {
 				switch op {
 				case "Lock":
+					a.noteReentry(call.Pos(), fn, m, "Lock of", st)
 					st.held[m] = "lock"
 				case "RLock":
+					a.noteReentry(call.Pos(), fn, m, "RLock of", st)
 					st.held[m] = "rlock"
 				default:
 					delete(st.held, m)
@@ -461,11 +531,14 @@ func init() {
 			{dir: "pkg/logger", globals: []string{"logger", "logBuffer"}, mutexes: []string{"mux"}},
 		}
 		var sites []syncSite
+		var reentry []string
 		for _, t := range targets {
 			a := newSyncAnalyzer(t)
 			a.run()
 			sites = append(sites, a.sites...)
+			reentry = append(reentry, a.reentry...)
 		}
+		sort.Strings(reentry)
 		locIdx, mIdx := map[string]int{}, map[string]int{}
 		var locs, muts []string
 		for _, s := range sites {
@@ -512,6 +585,7 @@ func init() {
 			rows = append(rows, fmt.Sprintf("  {| s_loc := %d; s_write := %v; s_prot := %s |} (* %s  %s  %s *)", locIdx[s.loc], s.write, p, s.loc, s.where, s.prot))
 		}
 		g.sb.WriteString("Definition sync_table : list site := [\n" + strings.Join(rows, ";\n") + "\n].\n")
+		g.def("sync_reentrant", "list string", q(reentry), "places where a mutex is acquired (directly or through a call within the package) while the same goroutine holds it; sync.Mutex / RWMutex are not re-entrant")
 		gens = append(gens, g)
 	})
 }
